@@ -258,20 +258,75 @@ func blindSumRule(P *Program, R *Report) {
 }
 
 // hashRoles evaluates the 5-element sequence hashed by HashCommit in fn and returns descriptors + terms.
-func hashRoles(P *Program, fn *ssa.Function) (call *ssa.Call, elems []SeqElem, terms []Term, ok bool) {
+func hashRoles(P *Program, fn *ssa.Function) (call *ssa.Call, elems []SeqElem, terms []Term, issig string, ok bool) {
 	for _, c := range callsIn(fn) {
 		if isCallTo(c, "common.HashCommit") {
 			call = c.(*ssa.Call)
 		}
 	}
+	be := P.bigEval(fn)
 	if call == nil {
-		return nil, nil, nil, false
+		// the hash may be taken in an unexported helper that returns it (one helper shared by prover and verifier):
+		// its list is evaluated with the helper's parameters standing for this function's arguments
+		for _, c := range callsIn(fn) {
+			outer, isCall := c.(*ssa.Call)
+			g := staticCallee(c)
+			if !isCall || g == nil || !inModuleFn(g) || g.Blocks == nil || (g.Object() != nil && g.Object().Exported()) {
+				continue
+			}
+			var hc *ssa.Call
+			for _, ic := range callsIn(g) {
+				if isCallTo(ic, "common.HashCommit") {
+					hc, _ = ic.(*ssa.Call)
+				}
+			}
+			if hc == nil {
+				continue
+			}
+			returnsIt := true
+			for _, r := range returnsOf(g) {
+				if len(r.Results) != 1 || siteOf(r.Results[0]) != ssa.Value(hc) {
+					returnsIt = false
+				}
+			}
+			if !returnsIt {
+				continue
+			}
+			var inner []SeqElem
+			okSeq := false
+			bindCall(c, g, func() {
+				inner, okSeq = seqOf(callArgs(hc)[0])
+				issig = desc(callArgs(hc)[1])
+			})
+			if !okSeq {
+				return outer, nil, nil, "", false
+			}
+			args := callArgs(c)
+			for _, e := range inner {
+				t := termTop()
+				if p, isP := e.V.(*ssa.Parameter); isP {
+					for k, gp := range g.Params {
+						if gp == p && k < len(args) {
+							e.V = args[k]
+							e.D = desc(args[k])
+							if at := be.At[outer]; k < len(at) {
+								t = at[k]
+							}
+						}
+					}
+				}
+				elems = append(elems, e)
+				terms = append(terms, t)
+			}
+			return outer, elems, terms, issig, true
+		}
+		return nil, nil, nil, "", false
 	}
+	issig = desc(callArgs(call)[1])
 	elems, ok = seqOf(callArgs(call)[0])
 	if !ok {
-		return call, nil, nil, false
+		return call, nil, nil, "", false
 	}
-	be := P.bigEval(fn)
 	for _, e := range elems {
 		t := termTop()
 		if e.V != nil {
@@ -286,7 +341,7 @@ func hashRoles(P *Program, fn *ssa.Function) (call *ssa.Call, elems []SeqElem, t
 		}
 		terms = append(terms, t)
 	}
-	return call, elems, terms, true
+	return call, elems, terms, issig, true
 }
 
 func proofSRule(P *Program, R *Report) {
@@ -295,7 +350,7 @@ func proofSRule(P *Program, R *Report) {
 	if fn == nil {
 		return
 	}
-	call, elems, terms, ok := hashRoles(P, fn)
+	call, elems, terms, issig, ok := hashRoles(P, fn)
 	if !ok || len(elems) != 5 {
 		R.und(rule, kProofSVer+":hash", "the hashed sequence has the five roles", fmt.Sprintf("could not evaluate (call=%v, %d elements)", call != nil, len(elems)), P.Pos(fn.Pos()))
 		return
@@ -308,7 +363,7 @@ func proofSRule(P *Program, R *Report) {
 	for i := range want {
 		R.decide(rule, fmt.Sprintf("%s:role%d:%s", kProofSVer, i, names[i]), "hashed element "+fmt.Sprint(i)+" is "+names[i], terms[i].equal(want[i]), "got "+terms[i].String()+" want "+want[i].String(), P.Pos(call.Pos()))
 	}
-	R.decide(rule, kProofSVer+":issig", "ProofS is hashed without the signature-session marker", desc(callArgs(call)[1]) == "false", desc(callArgs(call)[1]), P.Pos(call.Pos()))
+	R.decide(rule, kProofSVer+":issig", "ProofS is hashed without the signature-session marker", issig == "false", issig, P.Pos(call.Pos()))
 	mp(P, R, rule, kProofSVer+":C==hash", "accept => p.C compared equal to that hash", fn, AcceptTrue(0), &MustPass{Match: func(a Atom) bool {
 		x, y, ok := parseEq(a)
 		if !ok {
@@ -324,7 +379,7 @@ func proveSignatureRule(P *Program, R *Report) {
 	if fn == nil {
 		return
 	}
-	call, elems, terms, ok := hashRoles(P, fn)
+	call, elems, terms, issig, ok := hashRoles(P, fn)
 	if !ok || len(elems) != 5 {
 		R.und(rule, kProveSig+":hash", "the hashed sequence has the five roles", fmt.Sprintf("%d elements", len(elems)), P.Pos(fn.Pos()))
 		return
@@ -338,7 +393,7 @@ func proveSignatureRule(P *Program, R *Report) {
 	for i := range want {
 		R.decide(rule, fmt.Sprintf("%s:role%d:%s", kProveSig, i, names[i]), "hashed element "+fmt.Sprint(i)+" is "+names[i], terms[i].equal(want[i]), "got "+terms[i].String()+" want "+want[i].String(), P.Pos(call.Pos()))
 	}
-	R.decide(rule, kProveSig+":issig", "hashed without the signature-session marker", desc(callArgs(call)[1]) == "false", "", P.Pos(call.Pos()))
+	R.decide(rule, kProveSig+":issig", "hashed without the signature-session marker", issig == "false", issig, P.Pos(call.Pos()))
 	// response
 	be := P.bigEval(fn)
 	order := tsym("<gabi.Issuer>.Sk.Order")
